@@ -1,11 +1,728 @@
-//! C16 (not built yet)
-use crate::report::{Disagreement, Run};
-use serde_json::Value;
+//! C16 Cut and paste moves meaning, copy and paste translates it.
+//!
+//! Workbook: Sheet1 / Sheet2 with data in G1:H2 (outside every paste zone), defined names, a styled and linked
+//! source block at Sheet1!C3 (1x1, 1x2; thorough also 2x2) whose first cell holds a corpus formula and whose other
+//! cells reference the block; observers in row 8 (single cut cell, range inside, straddling range, absolute,
+//! through defined names, from the other sheet). Every paste target at offset (dr,dc) in {-1,0,1,2}^2 on the same
+//! sheet (overlapping and disjoint) and two targets on the other sheet x {cut, copy}, through the clipboard path of
+//! the bindings (copy_to_clipboard -> serde_json -> ClipboardData -> paste_from_clipboard).
+//! Copy oracle: the pasted cell's stored formula is the source's (R1C1 text identical) except references shifted
+//! off the grid, which must be #REF!. Cut oracle: every pasted formula and every observer denotes, reference by
+//! reference, the same cells as before (moved ones at their new place), values are unchanged, defined names follow.
+//! Style and link of the first cell travel in both modes.
 
-pub fn run(run: &mut Run) {
-    run.machinery_errors.push("C16: check not built yet".into());
+use crate::fx;
+use crate::ops::Op;
+use crate::props::c09;
+use crate::report::{Disagreement, Run};
+use ironcalc_base::expressions::parser::stringify::{to_localized_string, to_rc_format};
+use ironcalc_base::expressions::parser::{Node, Parser};
+use ironcalc_base::expressions::token::Error;
+use ironcalc_base::UserModel;
+use serde_json::{json, Value};
+
+const SR: i32 = 3; // source origin
+const SC: i32 = 3;
+const LAST_ROW: i32 = 1_048_576;
+const LAST_COL: i32 = 16_384;
+
+pub const CFGS: [(&str, &str); 3] = [("en", "en"), ("de", "de"), ("es", "en-GB")];
+
+fn constructs() -> Vec<&'static str> {
+    vec![
+        "G1", "$H$2", "G$1+$H2", "Sheet2!G1", "SUM(G1:H2)", "SUM(Sheet2!G1:H2,$H$2)", "INDEX({1,2;3,4},2,1)", "SUM({1,2;3,4})",
+        "SUM({1.5,2.5})+G1", "IF(G1>1,TRUE,FALSE)", "IF(G1>1.5,\"a,b\",\"c;d\")", "-G1^2", "(G1+1)%", "G1&\"x\"",
+        "1.5*G1", "LET(x,G1,x+1)", "LAMBDA(a,a+G1)(1)", "@G1", "nm+1", "TRUE",
+        "1-(2-G1)", "2^(G1^2)", "-(-G1)", "(G1=1)=TRUE", "G1-(H1+1)", "G1/(H1*2)", "(G1&H1)&\"z\"", "SUM(G1,H1,2)",
+        "MAX(G1:G2)-MIN(H1:H2)", "SUM(G1:INDEX(G1:H2,2,2))", "1+G1%", "ROUND(G1/3,2)",
+    ]
 }
 
-pub fn replay(_case: &Value) -> Vec<Disagreement> {
-    vec![]
+const CONSTANTS: [&str; 4] = ["7", "abc", "'12", "TRUE"];
+
+pub fn corpus(thorough: bool) -> Vec<String> {
+    let mut v: Vec<String> = constructs().iter().map(|s| s.to_string()).collect();
+    let leaves = ["G1", "$H$2", "2"];
+    v.extend(fx::terms(&leaves, &fx::BINOPS, 1, false).into_iter().filter(|t| t.contains('G') || t.contains('H')));
+    if thorough {
+        v.extend(fx::terms(&["G1", "$H$2", "Sheet2!G1", "2"], &fx::BINOPS, 1, true).into_iter().filter(|t| t.contains('G') || t.contains('H')));
+    }
+    v.sort();
+    v.dedup();
+    v
+}
+
+#[derive(Clone, Copy, Debug, PartialEq)]
+pub struct Shape {
+    h: i32,
+    w: i32,
+}
+
+fn typed(env: &mut c09::Env, english: &str, lang: &str, locale: &str, row: i32, col: i32) -> Option<String> {
+    // the parse context of c09::Env is C3; formulas here are typed in other cells too, so print from a tree parsed
+    // with an own parser at that cell
+    let _ = env;
+    let mut p = fx::mk_parser(&["Sheet1", "Sheet2"], names(), fx::loc("en"), fx::lang("en"));
+    let t = p.parse(english, &fx::ctx("Sheet1", row, col));
+    if fx::has_parse_error(&t) {
+        return None;
+    }
+    Some(format!("={}", to_localized_string(&t, &fx::ctx("Sheet1", row, col), fx::loc(locale), fx::lang(lang))))
+}
+
+fn names() -> Vec<(String, Option<u32>, String)> {
+    vec![
+        ("nm".into(), None, "Sheet1!$G$1".into()),
+        ("src".into(), None, "Sheet1!$C$3".into()),
+        ("srcr".into(), None, "Sheet1!$C$3:$D$3".into()),
+    ]
+}
+
+/// Observers: (sheet, row, col, english formula, value must stay under cut for shapes with w>=2 / any shape)
+fn observers() -> Vec<(u32, i32, i32, &'static str, &'static str)> {
+    vec![
+        (0, 8, 1, "C3", "cell"),
+        (0, 8, 2, "SUM(C3:D3)", "range"),      // inside the area only if w >= 2
+        (0, 8, 3, "SUM(B3:D3)", "straddle"),   // never entirely inside
+        (0, 8, 4, "$C$3*2", "cell"),
+        (0, 8, 5, "src+1", "name"),
+        (0, 8, 6, "SUM(srcr)", "name-range"),
+        (1, 8, 1, "Sheet1!C3*2", "cell"),
+    ]
+}
+
+fn build(env: &mut c09::Env, lang: &'static str, locale: &'static str, shape: Shape, first: &str, is_const: bool) -> Option<UserModel<'static>> {
+    let mut um = UserModel::new_empty("c16", locale, "UTC", lang).ok()?;
+    let _ = um.rename_sheet(0, "Sheet1");
+    um.new_sheet().ok()?;
+    let _ = um.rename_sheet(1, "Sheet2");
+    if um.get_model().workbook.get_worksheet_names() != vec!["Sheet1".to_string(), "Sheet2".to_string()] {
+        return None;
+    }
+    for (s, r, c, v) in [(0, 1, 7, "7"), (0, 1, 8, "3"), (0, 2, 7, "5"), (0, 2, 8, "11"), (1, 1, 7, "13"), (1, 1, 8, "17"), (1, 2, 7, "19"), (1, 2, 8, "23")] {
+        um.set_user_input(s, r, c, v).ok()?;
+    }
+    for (n, sc, f) in names() {
+        um.new_defined_name(&n, sc, &f).ok()?;
+    }
+    // source block
+    let first_text = if is_const { first.to_string() } else { typed(env, first, lang, locale, SR, SC)? };
+    um.set_user_input(0, SR, SC, &first_text).ok()?;
+    if !is_const {
+        // the typed text must be stored as the formula meant (otherwise C09's subject)
+        let mut p = fx::mk_parser(&["Sheet1", "Sheet2"], names(), fx::loc("en"), fx::lang("en"));
+        let t = p.parse(first, &fx::ctx("Sheet1", SR, SC));
+        if fx::stored_rc(um.get_model(), 0, SR, SC)? != to_rc_format(&t) {
+            return None;
+        }
+    }
+    let others: [(i32, i32, &str); 3] = [(0, 1, "C3*2"), (1, 0, "SUM(C3:D3)+G1"), (1, 1, "C3+G1")];
+    for (di, dj, f) in others {
+        if di < shape.h && dj < shape.w {
+            let t = typed(env, f, lang, locale, SR + di, SC + dj)?;
+            um.set_user_input(0, SR + di, SC + dj, &t).ok()?;
+        }
+    }
+    um.update_range_style(&crate::ops::area(0, SR, SC, 1, 1), "font.b", "true").ok()?;
+    um.set_cell_link(0, SR, SC, crate::ops::link_external("https://example.com/c16"), None).ok()?;
+    for (s, r, c, f, _) in observers() {
+        let t = typed(env, f, lang, locale, r, c)?;
+        // observers on Sheet2 are typed with the Sheet1 context only for printing; their text has no relative
+        // unqualified references, so the text is the same
+        um.set_user_input(s, r, c, &t).ok()?;
+    }
+    um.evaluate();
+    Some(um)
+}
+
+fn rc_parser() -> Parser<'static> {
+    let mut p = fx::mk_parser(&["Sheet1", "Sheet2"], names(), fx::loc("en"), fx::lang("en"));
+    fx::set_rc(&mut p, true);
+    p
+}
+
+/// Tree of the stored formula of a cell with every reference rewritten to absolute coordinates (flags kept,
+/// sheet names dropped, defined-name bodies blanked): two such trees are equal iff they denote the same cells.
+fn denote(p: &mut Parser, um: &UserModel, sheet: u32, row: i32, col: i32) -> Option<Node> {
+    let rc = fx::stored_rc(um.get_model(), sheet, row, col)?;
+    let sname = if sheet == 0 { "Sheet1" } else { "Sheet2" };
+    let mut t = p.parse(&rc, &fx::ctx(sname, row, col));
+    // a stored formula is R1C1 text the engine printed itself: if it does not print back to the same text it is
+    // not a stored formula but some other text that was kept verbatim (the parser ignores trailing input)
+    if !fx::has_parse_error(&t) && to_rc_format(&t) != rc {
+        t = Node::ParseErrorKind { formula: rc, message: "stored text is not the R1C1 form of what it parses to".into(), position: 0, expecting: vec![] };
+        return Some(t);
+    }
+    to_denotation(&mut t, row, col);
+    Some(t)
+}
+
+/// Coarse class of the difference between the expected and the stored tree.
+fn coarse(want: &Node, got: &Node) -> Option<String> {
+    if want == got {
+        return None;
+    }
+    if fx::has_parse_error(got) {
+        let mut has_array = false;
+        let mut w = want.clone();
+        fx::walk_mut(&mut w, &mut |n| {
+            if matches!(n, Node::ArrayKind(_)) {
+                has_array = true;
+            }
+        });
+        return Some(if has_array { "stored-text-unparseable(array-literal)".into() } else { "stored-text-unparseable".into() });
+    }
+    fn first_diff<'a>(a: &'a Node, b: &'a Node) -> (&'a Node, &'a Node) {
+        let ca = fx::children(a);
+        let cb = fx::children(b);
+        if fx::kind(a) == fx::kind(b) && ca.len() == cb.len() {
+            for ((_, x), (_, y)) in ca.iter().zip(cb.iter()) {
+                if x != y {
+                    if fx::kind(x) == fx::kind(y) && fx::children(x).len() == fx::children(y).len() && !fx::children(x).is_empty() {
+                        return first_diff(x, y);
+                    }
+                    if fx::kind(x) == fx::kind(y) && fx::children(x).is_empty() {
+                        return (x, y);
+                    }
+                    if fx::children(x).is_empty() && (fx::children(y).is_empty() || matches!(x, Node::ErrorKind(_))) {
+                        return (x, y);
+                    }
+                    // the operand itself changed shape: the parent is where parentheses were needed
+                    return (a, b);
+                }
+            }
+        }
+        (a, b)
+    }
+    let (w, g) = first_diff(want, got);
+    let cls = match (w, g) {
+        (Node::FunctionKind { .. }, Node::NamedFunctionKind { .. }) => "function-name-not-english".to_string(),
+        (Node::BooleanKind(_), Node::NamedVariableKind { .. }) => "boolean-literal-not-english".to_string(),
+        (Node::FunctionKind { args: a, .. }, Node::FunctionKind { args: b, .. }) if a.len() != b.len() => "argument-count".to_string(),
+        (Node::ArrayKind(_), _) | (_, Node::ArrayKind(_)) => "array-literal".to_string(),
+        (Node::ErrorKind(_), Node::OpRangeKind { .. }) => "offgrid-range-half-ref".to_string(),
+        _ if fx::children(w).is_empty() && fx::children(g).is_empty() => fx::divergence(w, g).unwrap_or_else(|| "leaf".into()),
+        _ => {
+            // operator children of the expected node whose place is taken by a node of another kind
+            let cw = fx::children(w);
+            let cg = fx::children(g);
+            let mut cands: Vec<String> = vec![];
+            for (i, (_, c)) in cw.iter().enumerate() {
+                if fx::children(c).is_empty() {
+                    continue;
+                }
+                let same = cg.get(i).map(|(_, d)| fx::kind(d) == fx::kind(c)).unwrap_or(false);
+                if !same || fx::kind(w) != fx::kind(g) {
+                    cands.push(fx::kd(c));
+                }
+            }
+            cands.dedup();
+            let child = match cands.len() {
+                0 => "-".to_string(),
+                1 => cands[0].clone(),
+                _ => "several".to_string(),
+            };
+            format!("nesting parent={} child={}", fx::kd(w), child)
+        }
+    };
+    Some(cls)
+}
+
+fn to_denotation(t: &mut Node, row: i32, col: i32) {
+    fx::walk_mut(t, &mut |n| match n {
+        Node::ReferenceKind { sheet_name, absolute_row, absolute_column, row: r, column: c, .. } => {
+            *sheet_name = None;
+            if !*absolute_row {
+                *r += row;
+            }
+            if !*absolute_column {
+                *c += col;
+            }
+        }
+        Node::RangeKind { sheet_name, absolute_row1, absolute_column1, row1, column1, absolute_row2, absolute_column2, row2, column2, .. } => {
+            *sheet_name = None;
+            if !*absolute_row1 {
+                *row1 += row;
+            }
+            if !*absolute_column1 {
+                *column1 += col;
+            }
+            if !*absolute_row2 {
+                *row2 += row;
+            }
+            if !*absolute_column2 {
+                *column2 += col;
+            }
+        }
+        Node::DefinedNameKind((_, _, f)) => f.clear(),
+        _ => {}
+    });
+}
+
+/// Moves, in a denotation tree, every reference into the area (and every range entirely inside it).
+fn move_denotation(t: &mut Node, shape: Shape, dr: i32, dc: i32, target_sheet: u32) {
+    let inside = |s: u32, r: i32, c: i32| s == 0 && r >= SR && r < SR + shape.h && c >= SC && c < SC + shape.w;
+    fx::walk_mut(t, &mut |n| match n {
+        Node::ReferenceKind { sheet_index, row, column, .. } => {
+            if inside(*sheet_index, *row, *column) {
+                *row += dr;
+                *column += dc;
+                *sheet_index = target_sheet;
+            }
+        }
+        Node::RangeKind { sheet_index, row1, column1, row2, column2, .. } => {
+            if inside(*sheet_index, *row1, *column1) && inside(*sheet_index, *row2, *column2) {
+                *row1 += dr;
+                *row2 += dr;
+                *column1 += dc;
+                *column2 += dc;
+                *sheet_index = target_sheet;
+            }
+        }
+        _ => {}
+    });
+}
+
+fn cell_value(um: &UserModel, sheet: u32, row: i32, col: i32) -> String {
+    let m = um.get_model();
+    match m.workbook.worksheets.get(sheet as usize).and_then(|ws| ws.cell(row, col)) {
+        Some(cell) => format!("{:?}:{:?}", cell.get_type(), cell.value(&m.workbook.shared_strings, fx::lang("en"))),
+        None => "<none>".into(),
+    }
+}
+
+#[derive(Clone, Debug)]
+pub struct Case {
+    pub cfg: usize,
+    pub formula: String,
+    pub is_const: bool,
+    pub h: i32,
+    pub w: i32,
+    pub ts: u32,
+    pub dr: i32,
+    pub dc: i32,
+    pub cut: bool,
+}
+
+fn case_json(c: &Case) -> Value {
+    json!({"cfg": c.cfg, "formula": c.formula, "const": c.is_const, "h": c.h, "w": c.w, "ts": c.ts, "dr": c.dr, "dc": c.dc, "cut": c.cut})
+}
+
+/// Cut only: coarse class of the difference at the first pasted cell (None = fine or not executable).
+fn first_cell_class(env: &mut c09::Env, c: &Case) -> Option<String> {
+    let (lang, locale) = CFGS[c.cfg];
+    let shape = Shape { h: c.h, w: c.w };
+    let mut um = build(env, lang, locale, shape, &c.formula, false)?;
+    let mut p = rc_parser();
+    let mut want = denote(&mut p, &um, 0, SR, SC)?;
+    let op = Op::Paste(0, SR, SC, SR + c.h - 1, SC + c.w - 1, c.ts, SR + c.dr, SC + c.dc, true);
+    match crate::env::guarded(|| op.apply(&mut um)) {
+        Ok(Ok(())) => {}
+        _ => return None,
+    }
+    let got = denote(&mut p, &um, c.ts, SR + c.dr, SC + c.dc)?;
+    move_denotation(&mut want, shape, c.dr, c.dc, c.ts);
+    coarse(&want, &got)
+}
+
+/// Minimises a cut whose pasted formula lost its nesting: descends into sub-formulas that still fail when cut on
+/// their own, then finds the culprit operand by substituting the leaf `2` (same method as C09, with the cut as printer).
+fn refine_nesting(env: &mut c09::Env, c: &Case) -> Option<String> {
+    let cx = fx::ctx("Sheet1", SR, SC);
+    let mut p = fx::mk_parser(&["Sheet1", "Sheet2"], names(), fx::loc("en"), fx::lang("en"));
+    let t = p.parse(&c.formula, &cx);
+    if fx::has_parse_error(&t) {
+        return None;
+    }
+    let mut fails = |n: &Node, env: &mut c09::Env| -> bool {
+        let text = fx::paren_text(n, &cx);
+        if &p.parse(&text, &cx) != n {
+            return false;
+        }
+        let c2 = Case { formula: text, ..c.clone() };
+        first_cell_class(env, &c2).map(|s| s.starts_with("nesting")).unwrap_or(false)
+    };
+    let mut m = t.clone();
+    'descend: loop {
+        let kids: Vec<Node> = fx::children(&m).iter().map(|(_, k)| (*k).clone()).collect();
+        for k in kids {
+            if !fx::children(&k).is_empty() && fails(&k, env) {
+                m = k;
+                continue 'descend;
+            }
+        }
+        break;
+    }
+    let kids: Vec<(String, Node)> = fx::children(&m).iter().map(|(s, k)| (s.clone(), (*k).clone())).collect();
+    let neutral = || Node::NumberKind(2.0);
+    for (i, (side, k)) in kids.iter().enumerate() {
+        if fx::children(k).is_empty() {
+            continue;
+        }
+        // keep only operand i, neutralise the other operator operands (a reference must remain somewhere)
+        let mut only = m.clone();
+        for (j, (_, kj)) in kids.iter().enumerate() {
+            if j != i && !fx::children(kj).is_empty() {
+                only = fx::with_child(&only, j, neutral());
+            }
+        }
+        if fails(&only, env) {
+            return Some(format!("nesting parent={} child={} side={}", fx::kd(&m), fx::kd(k), side));
+        }
+    }
+    Some(format!("nesting parent={} child=unresolved", fx::kd(&m)))
+}
+
+pub fn check(env: &mut c09::Env, c: &Case) -> (bool, Vec<Disagreement>) {
+    let (lang, locale) = CFGS[c.cfg];
+    let shape = Shape { h: c.h, w: c.w };
+    let mut um = match build(env, lang, locale, shape, &c.formula, c.is_const) {
+        Some(u) => u,
+        None => return (false, vec![]),
+    };
+    let mode = if c.cut { "cut" } else { "copy" };
+    let place = if c.ts != 0 {
+        "other-sheet"
+    } else if c.dr.abs() < c.h && c.dc.abs() < c.w {
+        "overlap"
+    } else {
+        "disjoint"
+    };
+    let mut ds: Vec<Disagreement> = vec![];
+    let count = std::cell::Cell::new(0usize);
+    let mut add = |what: String, detail: String| {
+        count.set(count.get() + 1);
+        ds.push(Disagreement {
+            sig: format!("{} {} {}", mode, place, what),
+            case: case_json(c),
+            detail: format!("{} of Sheet1!R{}C{} ({}x{}, first cell `{}`, {}/{}) to sheet {} offset ({},{})\n{}", mode, SR, SC, c.h, c.w, c.formula, lang, locale, c.ts, c.dr, c.dc, detail),
+        });
+    };
+    let mut p = rc_parser();
+    // before
+    let mut src_den = vec![];
+    let mut src_rc = vec![];
+    let mut src_val = vec![];
+    for i in 0..c.h {
+        for j in 0..c.w {
+            src_den.push(denote(&mut p, &um, 0, SR + i, SC + j));
+            src_rc.push(fx::stored_rc(um.get_model(), 0, SR + i, SC + j));
+            src_val.push(cell_value(&um, 0, SR + i, SC + j));
+        }
+    }
+    let obs = observers();
+    let obs_den: Vec<Option<Node>> = obs.iter().map(|(s, r, cc, _, _)| denote(&mut p, &um, *s, *r, *cc)).collect();
+    let obs_rc: Vec<Option<String>> = obs.iter().map(|(s, r, cc, _, _)| fx::stored_rc(um.get_model(), *s, *r, *cc)).collect();
+    let obs_val: Vec<String> = obs.iter().map(|(s, r, cc, _, _)| cell_value(&um, *s, *r, *cc)).collect();
+    let style0 = um.get_model().get_style_for_cell(0, SR, SC).ok();
+    let link0 = format!("{:?}", um.get_cell_link(0, SR, SC));
+    // the operation
+    let (tr, tc) = (SR + c.dr, SC + c.dc);
+    let op = Op::Paste(0, SR, SC, SR + c.h - 1, SC + c.w - 1, c.ts, tr, tc, c.cut);
+    match crate::env::guarded(|| op.apply(&mut um)) {
+        Err(pn) => {
+            add(format!("panic at={}", pn.rsplit(" @ ").next().unwrap_or("")), pn);
+            return (true, ds);
+        }
+        Ok(Err(e)) => {
+            add("error".into(), format!("paste returned Err({})", e));
+            return (true, ds);
+        }
+        Ok(Ok(())) => {}
+    }
+    um.evaluate();
+    let cfg_tag = |got: &Node| if c.cfg != 0 && fx::has_parse_error(got) { format!(" cfg={}", lang) } else { String::new() };
+    // pasted cells
+    let mut pending_values: Vec<(String, String)> = vec![];
+    let mut k = 0usize;
+    for i in 0..c.h {
+        for j in 0..c.w {
+            let idx = k;
+            k += 1;
+            let (r, cc) = (tr + i, tc + j);
+            let which = if i == 0 && j == 0 { "first" } else { "inner" };
+            match &src_den[idx] {
+                None => {
+                    // constant: same value and type
+                    let v = cell_value(&um, c.ts, r, cc);
+                    if v != src_val[idx] {
+                        add(format!("constant-changed kind={}", src_val[idx].split(':').next().unwrap_or("")), format!("source value {} pasted value {}", src_val[idx], v));
+                    }
+                }
+                Some(sd) => {
+                    let got = denote(&mut p, &um, c.ts, r, cc);
+                    let got = match got {
+                        Some(g) => g,
+                        None => {
+                            add(format!("pasted-{} not-a-formula{}", which, if c.cfg != 0 { format!(" cfg={}", lang) } else { String::new() }), format!("pasted cell R{}C{} holds `{}`", r, cc, um.get_cell_content(c.ts, r, cc).unwrap_or_default()));
+                            continue;
+                        }
+                    };
+                    if c.cut {
+                        let mut want = sd.clone();
+                        move_denotation(&mut want, shape, c.dr, c.dc, c.ts);
+                        if let Some(mut dv) = coarse(&want, &got) {
+                            if dv.starts_with("nesting") && which == "first" {
+                                if let Some(r) = refine_nesting(env, c) {
+                                    dv = r;
+                                }
+                            }
+                            add(
+                                format!("pasted-{} {}{}", which, dv, cfg_tag(&got)),
+                                format!("source stored `{}`, pasted cell stores `{}`\nexpected denotation {}\ngot {}", src_rc[idx].clone().unwrap_or_default(), fx::stored_rc(um.get_model(), c.ts, r, cc).unwrap_or_default(), fx::short(&want), fx::short(&got)),
+                            );
+                        } else {
+                            let v = cell_value(&um, c.ts, r, cc);
+                            if v != src_val[idx] {
+                                pending_values.push((format!("pasted-{} value-changed", which), format!("value before {} after {}", src_val[idx], v)));
+                            }
+                        }
+                    } else {
+                        // copy: relative form identical, off-grid references become #REF!
+                        let rc_src = src_rc[idx].clone().unwrap_or_default();
+                        let mut want = p.parse(&rc_src, &fx::ctx("Sheet1", SR + i, SC + j));
+                        let mut off = false;
+                        fx::walk_mut(&mut want, &mut |n| {
+                            let bad = |abs: bool, v: i32, base: i32, max: i32| {
+                                let a = if abs { v } else { v + base };
+                                a < 1 || a > max
+                            };
+                            let kill = match n {
+                                Node::ReferenceKind { absolute_row, absolute_column, row, column, .. } => bad(*absolute_row, *row, r, LAST_ROW) || bad(*absolute_column, *column, cc, LAST_COL),
+                                Node::RangeKind { absolute_row1, absolute_column1, row1, column1, absolute_row2, absolute_column2, row2, column2, .. } => {
+                                    bad(*absolute_row1, *row1, r, LAST_ROW) || bad(*absolute_column1, *column1, cc, LAST_COL) || bad(*absolute_row2, *row2, r, LAST_ROW) || bad(*absolute_column2, *column2, cc, LAST_COL)
+                                }
+                                _ => false,
+                            };
+                            if kill {
+                                *n = Node::ErrorKind(Error::REF);
+                                off = true;
+                            }
+                        });
+                        let rc_got = fx::stored_rc(um.get_model(), c.ts, r, cc).unwrap_or_default();
+                        let tsheet = if c.ts == 0 { "Sheet1" } else { "Sheet2" };
+                        let mut got_rel = p.parse(&rc_got, &fx::ctx(tsheet, r, cc));
+                        if !fx::has_parse_error(&got_rel) && to_rc_format(&got_rel) != rc_got {
+                            got_rel = Node::ParseErrorKind { formula: rc_got.clone(), message: "stored text is not R1C1".into(), position: 0, expecting: vec![] };
+                        }
+                        // on another sheet unqualified references keep their text and now mean that sheet
+                        let norm = |t: &mut Node| {
+                            fx::walk_mut(t, &mut |n| match n {
+                                Node::ReferenceKind { sheet_name: None, sheet_index, .. } | Node::RangeKind { sheet_name: None, sheet_index, .. } => *sheet_index = 0,
+                                Node::DefinedNameKind((_, _, f)) => f.clear(),
+                                _ => {}
+                            })
+                        };
+                        norm(&mut want);
+                        norm(&mut got_rel);
+                        if let Some(dv) = coarse(&want, &got_rel) {
+                            add(
+                                format!("pasted-{} {}{}{}", which, if off { "offgrid " } else { "" }, dv, cfg_tag(&got_rel)),
+                                format!("source stored `{}`, pasted cell stores `{}`", rc_src, rc_got),
+                            );
+                        } else if !off && rc_got != rc_src {
+                            add(format!("pasted-{} rc-text-differs", which), format!("source stored `{}`, pasted cell stores `{}`", rc_src, rc_got));
+                        }
+                        let _ = got;
+                    }
+                }
+            }
+        }
+    }
+    // value differences of pasted cells are reported only when nothing structural explains them
+    if count.get() == 0 {
+        for (w, d) in pending_values {
+            add(w, d);
+        }
+    }
+    let pasted_bad = count.get() > 0;
+    // style and link of the first cell
+    let style1 = um.get_model().get_style_for_cell(c.ts, tr, tc).ok();
+    if style1 != style0 {
+        add("style".into(), format!("style of the first pasted cell differs: font.b {:?} -> {:?}", style0.map(|s| s.font.b), style1.map(|s| s.font.b)));
+    }
+    let link1 = format!("{:?}", um.get_cell_link(c.ts, tr, tc));
+    if link1 != link0 {
+        add("link".into(), format!("link {} -> {}", link0, link1));
+    }
+    let mut names_bad = false;
+    // defined names follow a cut
+    let moved = c.dr != 0 || c.dc != 0 || c.ts != 0;
+    let col = |n: i32| ironcalc_base::expressions::utils::number_to_column(n).unwrap_or_default();
+    let tsheet = if c.ts == 0 { "Sheet1" } else { "Sheet2" };
+    let want_src = if c.cut && moved { format!("{}!${}${}", tsheet, col(SC + c.dc), SR + c.dr) } else { "Sheet1!$C$3".to_string() };
+    let want_srcr = if c.cut && moved && c.w >= 2 {
+        format!("{}!${}${}:${}${}", tsheet, col(SC + c.dc), SR + c.dr, col(SC + 1 + c.dc), SR + c.dr)
+    } else {
+        "Sheet1!$C$3:$D$3".to_string()
+    };
+    for (name, want) in [("src", want_src), ("srcr", want_srcr)] {
+        let got = um.get_model().workbook.defined_names.iter().find(|d| d.name == name).map(|d| d.formula.clone()).unwrap_or_default();
+        if got.trim_start_matches('=') != want {
+            add(format!("defined-name={}", name), format!("defined name {} is `{}`, expected `{}`", name, got, want));
+            names_bad = true;
+        }
+    }
+    // observers
+    let target_hits_row3 = c.ts == 0 && tr <= 3 && 3 < tr + c.h && tc <= 4 && 2 < tc + c.w;
+    for (n, (s, r, cc, f, class)) in obs.iter().enumerate() {
+        let got = denote(&mut p, &um, *s, *r, *cc);
+        let rc_now = fx::stored_rc(um.get_model(), *s, *r, *cc);
+        if c.cut {
+            let mut want = match &obs_den[n] {
+                Some(w) => w.clone(),
+                None => continue,
+            };
+            move_denotation(&mut want, shape, c.dr, c.dc, c.ts);
+            match got {
+                None => add(format!("observer={} not-a-formula", class), format!("observer `{}` now holds `{}`", f, um.get_cell_content(*s, *r, *cc).unwrap_or_default())),
+                Some(g) => {
+                    if let Some(dv) = coarse(&want, &g) {
+                        add(
+                            format!("observer={} {}{}", class, dv, cfg_tag(&g)),
+                            format!("observer `{}` stored `{}` before, `{}` after\nexpected denotation {}\ngot {}", f, obs_rc[n].clone().unwrap_or_default(), rc_now.unwrap_or_default(), fx::short(&want), fx::short(&g)),
+                        );
+                        continue;
+                    }
+                    // values: unchanged unless the observer reads a range that is not entirely inside the area
+                    let reads_partial = *class == "straddle" || ((*class == "range" || *class == "name-range") && c.w < 2);
+                    if !reads_partial && !pasted_bad && !(names_bad && class.starts_with("name")) {
+                        let v = cell_value(&um, *s, *r, *cc);
+                        if v != obs_val[n] {
+                            add(format!("observer={} value-changed", class), format!("observer `{}` value {} -> {}", f, obs_val[n], v));
+                        }
+                    }
+                }
+            }
+        } else {
+            if rc_now != obs_rc[n] {
+                add(format!("observer={} formula-changed-by-copy", class), format!("observer `{}` stored {:?} -> {:?}", f, obs_rc[n], rc_now));
+            } else if !target_hits_row3 && !pasted_bad {
+                let v = cell_value(&um, *s, *r, *cc);
+                if v != obs_val[n] {
+                    add(format!("observer={} value-changed-by-copy", class), format!("observer `{}` value {} -> {}", f, obs_val[n], v));
+                }
+            }
+        }
+    }
+    (true, ds)
+}
+
+pub fn cases(thorough: bool) -> Vec<Case> {
+    let mut v = vec![];
+    let shapes: Vec<(i32, i32)> = if thorough { vec![(1, 1), (1, 2), (2, 2)] } else { vec![(1, 1), (1, 2)] };
+    let mut targets: Vec<(u32, i32, i32)> = vec![];
+    for dr in [-1, 0, 1, 2] {
+        for dc in [-1, 0, 1, 2] {
+            targets.push((0, dr, dc));
+        }
+    }
+    targets.push((1, 0, 0));
+    targets.push((1, 1, 2));
+    let small = corpus(false);
+    for (cfg, _) in CFGS.iter().enumerate() {
+        for (h, w) in &shapes {
+            for (ts, dr, dc) in &targets {
+                for cut in [false, true] {
+                    for f in &small {
+                        v.push(Case { cfg, formula: f.clone(), is_const: false, h: *h, w: *w, ts: *ts, dr: *dr, dc: *dc, cut });
+                    }
+                    for k in CONSTANTS {
+                        v.push(Case { cfg, formula: k.to_string(), is_const: true, h: *h, w: *w, ts: *ts, dr: *dr, dc: *dc, cut });
+                    }
+                }
+            }
+        }
+    }
+    if thorough {
+        // the large term set: 1x2 block, en/en and de/de, six targets
+        let small_set: std::collections::BTreeSet<&String> = small.iter().collect();
+        for f in corpus(true).iter().filter(|f| !small_set.contains(f)) {
+            for cfg in [0usize, 1] {
+                for (ts, dr, dc) in [(0u32, 0, 1), (0, 1, 0), (0, -1, -1), (0, 2, 2), (1, 0, 0), (1, 1, 2)] {
+                    for cut in [false, true] {
+                        v.push(Case { cfg, formula: f.clone(), is_const: false, h: 1, w: 2, ts, dr, dc, cut });
+                    }
+                }
+            }
+        }
+    }
+    v
+}
+
+pub fn run(run: &mut Run) {
+    let thorough = run.tier.thorough();
+    let cs = cases(thorough);
+    let chunk = 64;
+    let res = crate::env::par_units(cs.len().div_ceil(chunk), |u| {
+        let mut env = c09::Env::new();
+        let mut ds = vec![];
+        let (mut ran, mut skipped) = (0u64, 0u64);
+        let mut outcomes = std::collections::BTreeSet::new();
+        for c in cs.iter().skip(u * chunk).take(chunk) {
+            let (ok, d) = check(&mut env, c);
+            if ok {
+                ran += 1;
+            } else {
+                skipped += 1;
+            }
+            outcomes.insert(crate::env::digest(&format!("{}{}{}", c.formula, c.dr, c.dc)));
+            ds.extend(d);
+        }
+        (ds, ran, skipped, outcomes)
+    });
+    let (mut ran, mut skipped) = (0u64, 0u64);
+    let mut outcomes = std::collections::BTreeSet::new();
+    for r in res {
+        match r {
+            Ok((ds, a, b, o)) => {
+                run.add_all(ds);
+                ran += a;
+                skipped += b;
+                outcomes.extend(o);
+            }
+            Err(e) => run.machinery_errors.push(format!("unit panicked: {}", e)),
+        }
+    }
+    run.evaluations = cs.len() as u64;
+    run.states = ran;
+    run.transitions = ran * 4;
+    run.traces = ran;
+    run.nontrivial = ran;
+    run.distinct_outcomes = outcomes.len() as u64;
+    run.rule = "every executed case is a real clipboard round trip of a formula-bearing (or constant) block with observers; cases whose typed text is not stored as the intended formula are skipped".into();
+    for i in [0, cs.len() / 2, cs.len() - 1] {
+        run.sample(case_json(&cs[i]));
+    }
+    run.bound = json!({
+        "configurations": CFGS.iter().map(|(l, c)| format!("{}/{}", l, c)).collect::<Vec<_>>(),
+        "source_shapes": if thorough { "1x1, 1x2, 2x2 at Sheet1!C3" } else { "1x1, 1x2 at Sheet1!C3" },
+        "targets": "offsets {-1,0,1,2}^2 on the same sheet (overlapping and disjoint) + 2 on the other sheet",
+        "modes": ["copy", "cut"],
+        "first_cell_formulas": corpus(thorough).len(),
+        "large_term_set": if thorough { "depth<=1 over {G1,$H$2,Sheet2!G1,2} x 12 operators with unary - and %: 1x2 block, en/en and de/de, six targets" } else { "-" },
+        "constants": CONSTANTS,
+        "observers": observers().iter().map(|o| o.3).collect::<Vec<_>>(),
+        "cases": cs.len(), "executed": ran, "skipped_typed_text_not_the_formula": skipped,
+    });
+    run.exhaustive = true;
+    run.assume("the paste zone (rows 2..6, columns B..F) holds nothing but the source block; data lives in G1:H2, observers in row 8");
+    run.assume("under cut, values of observers reading a range that is only partly inside the cut area may change and are not compared; under copy, observer values are compared only when the target does not touch B3:D3");
+    run.assume("the statement does not say what remains in the vacated source cells; not compared");
+}
+
+pub fn replay(case: &Value) -> Vec<Disagreement> {
+    let mut env = c09::Env::new();
+    let c = Case {
+        cfg: case["cfg"].as_u64().unwrap_or(0) as usize % CFGS.len(),
+        formula: case["formula"].as_str().unwrap_or("").to_string(),
+        is_const: case["const"].as_bool().unwrap_or(false),
+        h: case["h"].as_i64().unwrap_or(1) as i32,
+        w: case["w"].as_i64().unwrap_or(1) as i32,
+        ts: case["ts"].as_u64().unwrap_or(0) as u32,
+        dr: case["dr"].as_i64().unwrap_or(0) as i32,
+        dc: case["dc"].as_i64().unwrap_or(0) as i32,
+        cut: case["cut"].as_bool().unwrap_or(false),
+    };
+    check(&mut env, &c).1
 }
